@@ -62,7 +62,7 @@ theorem mainLoop_iterations_le (P : Problem α) (dir : Direction D α) (pr : Par
       omega
 
 theorem initState_k (P : Problem α) (d0 : D) (pr : Params α) (stop : Nat → Bool) (x0 gV : Vec α)
-    (gS : α) (s : St α D) (h : initState P d0 pr stop x0 gV gS = .inr s) : s.k = 0 ∧ s.noProgress = 0 ∧ s.cbs = [] := by
+    (gS iS : α) (s : St α D) (h : initState P d0 pr stop x0 gV gS iS = .inr s) : s.k = 0 ∧ s.noProgress = 0 ∧ s.cbs = [] := by
   unfold initState at h
   simp only [] at h
   split_ifs at h
@@ -73,39 +73,39 @@ theorem initState_k (P : Problem α) (d0 : D) (pr : Params α) (stop : Nat → B
 /-- **The iteration count never exceeds `max_iter`** — for every oracle, stop schedule, budget
     (no fuel hypothesis needed). -/
 theorem iterations_le_max_iter (P : Problem α) (dir : Direction D α) (d0 : D) (pr : Params α)
-    (stop : Nat → Bool) (oot : Bool) (x0 y Sig errz0 gV : Vec α) (gS : α) :
-    (run P dir d0 pr stop oot x0 y Sig errz0 gV gS).stats.iterations ≤ pr.maxIter := by
+    (stop : Nat → Bool) (oot : Bool) (x0 y Sig errz0 gV : Vec α) (gS iS : α) :
+    (run P dir d0 pr stop oot x0 y Sig errz0 gV gS iS).stats.iterations ≤ pr.maxIter := by
   unfold run
-  cases hi : initState P d0 pr stop x0 gV gS with
+  cases hi : initState P d0 pr stop x0 gV gS iS with
   | inl t => simp [stats0]
   | inr s =>
     simp only []
     exact mainLoop_iterations_le P dir pr stop oot x0 y Sig errz0 _ s
-      (by rw [(initState_k P d0 pr stop x0 gV gS s hi).1]; exact Nat.zero_le _)
+      (by rw [(initState_k P d0 pr stop x0 gV gS iS s hi).1]; exact Nat.zero_le _)
 
 /-! ### The exit status is the generated chain at the last loop head -/
 
 /-- State at the last loop head of a solve (after the head's own evaluation of `∇ψ(x̂)`),
     `none` when the solver returned before the main loop (non-finite Lipschitz estimate). -/
 def finalHead (P : Problem α) (dir : Direction D α) (d0 : D) (pr : Params α) (stop : Nat → Bool)
-    (oot : Bool) (x0 gV : Vec α) (gS : α) : Option (St α D) :=
-  match initState P d0 pr stop x0 gV gS with
+    (oot : Bool) (x0 gV : Vec α) (gS iS : α) : Option (St α D) :=
+  match initState P d0 pr stop x0 gV gS iS with
   | .inl _ => none
   | .inr s => some (headStep P pr stop oot (lastHead P dir pr stop oot (pr.maxIter + 2) s)).1
 
 /-- The result of a solve that reached the main loop is the exit block applied at the last head,
     with the status and `ε` computed there. -/
 theorem run_eq_exit (P : Problem α) (dir : Direction D α) (d0 : D) (pr : Params α)
-    (stop : Nat → Bool) (oot : Bool) (x0 y Sig errz0 gV : Vec α) (gS : α) (sh : St α D)
-    (hfuel : (run P dir d0 pr stop oot x0 y Sig errz0 gV gS).fuelOut = false)
-    (hh : finalHead P dir d0 pr stop oot x0 gV gS = some sh) :
+    (stop : Nat → Bool) (oot : Bool) (x0 y Sig errz0 gV : Vec α) (gS iS : α) (sh : St α D)
+    (hfuel : (run P dir d0 pr stop oot x0 y Sig errz0 gV gS iS).fuelOut = false)
+    (hh : finalHead P dir d0 pr stop oot x0 gV gS iS = some sh) :
     statusOf pr sh.k (epsOf P pr sh.curr) sh.noProgress oot (stop sh.tick) ≠ .Busy ∧
-    run P dir d0 pr stop oot x0 y Sig errz0 gV gS =
+    run P dir d0 pr stop oot x0 y Sig errz0 gV gS iS =
       exitBlock P pr sh (epsOf P pr sh.curr)
         (statusOf pr sh.k (epsOf P pr sh.curr) sh.noProgress oot (stop sh.tick)) x0 y Sig errz0 := by
   unfold finalHead at hh
   unfold run at hfuel ⊢
-  cases hi : initState P d0 pr stop x0 gV gS with
+  cases hi : initState P d0 pr stop x0 gV gS iS with
   | inl t => rw [hi] at hh; exact absurd hh (by simp)
   | inr s =>
     rw [hi] at hh
@@ -119,16 +119,16 @@ theorem run_eq_exit (P : Problem α) (dir : Direction D α) (d0 : D) (pr : Param
     current iterate: `status = statusChain tol max_iter max_no_progress k ε no_progress oot stop`
     with `ε` the generated criterion of that iterate, `k` the returned iteration count. -/
 theorem final_status_is_chain (P : Problem α) (dir : Direction D α) (d0 : D) (pr : Params α)
-    (stop : Nat → Bool) (oot : Bool) (x0 y Sig errz0 gV : Vec α) (gS : α) (sh : St α D)
-    (hfuel : (run P dir d0 pr stop oot x0 y Sig errz0 gV gS).fuelOut = false)
-    (hh : finalHead P dir d0 pr stop oot x0 gV gS = some sh) :
-    (run P dir d0 pr stop oot x0 y Sig errz0 gV gS).stats.status =
+    (stop : Nat → Bool) (oot : Bool) (x0 y Sig errz0 gV : Vec α) (gS iS : α) (sh : St α D)
+    (hfuel : (run P dir d0 pr stop oot x0 y Sig errz0 gV gS iS).fuelOut = false)
+    (hh : finalHead P dir d0 pr stop oot x0 gV gS iS = some sh) :
+    (run P dir d0 pr stop oot x0 y Sig errz0 gV gS iS).stats.status =
       statusChain pr.tolerance pr.maxIter pr.maxNoProgress sh.k (epsOf P pr sh.curr) sh.noProgress oot
         (stop sh.tick) ∧
-    (run P dir d0 pr stop oot x0 y Sig errz0 gV gS).stats.eps = epsOf P pr sh.curr ∧
-    (run P dir d0 pr stop oot x0 y Sig errz0 gV gS).stats.iterations = sh.k ∧
-    (run P dir d0 pr stop oot x0 y Sig errz0 gV gS).stats.status ≠ .Busy := by
-  have h := run_eq_exit P dir d0 pr stop oot x0 y Sig errz0 gV gS sh hfuel hh
+    (run P dir d0 pr stop oot x0 y Sig errz0 gV gS iS).stats.eps = epsOf P pr sh.curr ∧
+    (run P dir d0 pr stop oot x0 y Sig errz0 gV gS iS).stats.iterations = sh.k ∧
+    (run P dir d0 pr stop oot x0 y Sig errz0 gV gS iS).stats.status ≠ .Busy := by
+  have h := run_eq_exit P dir d0 pr stop oot x0 y Sig errz0 gV gS iS sh hfuel hh
   have hf := exitBlock_fields P pr sh (epsOf P pr sh.curr)
     (statusOf pr sh.k (epsOf P pr sh.curr) sh.noProgress oot (stop sh.tick)) x0 y Sig errz0
   rw [h.2]
@@ -137,12 +137,12 @@ theorem final_status_is_chain (P : Problem α) (dir : Direction D α) (d0 : D) (
 /-- **`Converged` is reported exactly when the reported `ε` is `≤` the requested tolerance**
     (`tolerance' = tolerance` if positive, else `1e-8`), for every solve that reached the main loop. -/
 theorem converged_iff_eps_le_tol (P : Problem α) (dir : Direction D α) (d0 : D) (pr : Params α)
-    (stop : Nat → Bool) (oot : Bool) (x0 y Sig errz0 gV : Vec α) (gS : α) (sh : St α D)
-    (hfuel : (run P dir d0 pr stop oot x0 y Sig errz0 gV gS).fuelOut = false)
-    (hh : finalHead P dir d0 pr stop oot x0 gV gS = some sh) :
-    (run P dir d0 pr stop oot x0 y Sig errz0 gV gS).stats.status = .Converged ↔
-      (run P dir d0 pr stop oot x0 y Sig errz0 gV gS).stats.eps ≤ effTol pr.tolerance := by
-  have h := final_status_is_chain P dir d0 pr stop oot x0 y Sig errz0 gV gS sh hfuel hh
+    (stop : Nat → Bool) (oot : Bool) (x0 y Sig errz0 gV : Vec α) (gS iS : α) (sh : St α D)
+    (hfuel : (run P dir d0 pr stop oot x0 y Sig errz0 gV gS iS).fuelOut = false)
+    (hh : finalHead P dir d0 pr stop oot x0 gV gS iS = some sh) :
+    (run P dir d0 pr stop oot x0 y Sig errz0 gV gS iS).stats.status = .Converged ↔
+      (run P dir d0 pr stop oot x0 y Sig errz0 gV gS iS).stats.eps ≤ effTol pr.tolerance := by
+  have h := final_status_is_chain P dir d0 pr stop oot x0 y Sig errz0 gV gS iS sh hfuel hh
   rw [h.1, h.2.1]
   exact converged_iff _ _ _ _ _ _ _ _
 
@@ -150,20 +150,20 @@ theorem converged_iff_eps_le_tol (P : Problem α) (dir : Direction D α) (d0 : D
     `MaxIter ⇒ iterations = max_iter`, `NotFinite ⇒ ε not finite`, `Interrupted ⇒ the stop flag was
     visible at the last head`, `MaxTime ⇒ out of time`; `Exception` is never returned. -/
 theorem status_meaning (P : Problem α) (dir : Direction D α) (d0 : D) (pr : Params α)
-    (stop : Nat → Bool) (oot : Bool) (x0 y Sig errz0 gV : Vec α) (gS : α) (sh : St α D)
-    (hfuel : (run P dir d0 pr stop oot x0 y Sig errz0 gV gS).fuelOut = false)
-    (hh : finalHead P dir d0 pr stop oot x0 gV gS = some sh) :
-    ((run P dir d0 pr stop oot x0 y Sig errz0 gV gS).stats.status = .MaxIter →
-      (run P dir d0 pr stop oot x0 y Sig errz0 gV gS).stats.iterations = pr.maxIter) ∧
-    ((run P dir d0 pr stop oot x0 y Sig errz0 gV gS).stats.status = .NotFinite →
-      RealLike.isFinite (run P dir d0 pr stop oot x0 y Sig errz0 gV gS).stats.eps = false) ∧
-    ((run P dir d0 pr stop oot x0 y Sig errz0 gV gS).stats.status = .Interrupted →
+    (stop : Nat → Bool) (oot : Bool) (x0 y Sig errz0 gV : Vec α) (gS iS : α) (sh : St α D)
+    (hfuel : (run P dir d0 pr stop oot x0 y Sig errz0 gV gS iS).fuelOut = false)
+    (hh : finalHead P dir d0 pr stop oot x0 gV gS iS = some sh) :
+    ((run P dir d0 pr stop oot x0 y Sig errz0 gV gS iS).stats.status = .MaxIter →
+      (run P dir d0 pr stop oot x0 y Sig errz0 gV gS iS).stats.iterations = pr.maxIter) ∧
+    ((run P dir d0 pr stop oot x0 y Sig errz0 gV gS iS).stats.status = .NotFinite →
+      RealLike.isFinite (run P dir d0 pr stop oot x0 y Sig errz0 gV gS iS).stats.eps = false) ∧
+    ((run P dir d0 pr stop oot x0 y Sig errz0 gV gS iS).stats.status = .Interrupted →
       stop sh.tick = true) ∧
-    ((run P dir d0 pr stop oot x0 y Sig errz0 gV gS).stats.status = .MaxTime → oot = true) ∧
-    ((run P dir d0 pr stop oot x0 y Sig errz0 gV gS).stats.status = .NoProgress →
+    ((run P dir d0 pr stop oot x0 y Sig errz0 gV gS iS).stats.status = .MaxTime → oot = true) ∧
+    ((run P dir d0 pr stop oot x0 y Sig errz0 gV gS iS).stats.status = .NoProgress →
       sh.noProgress > pr.maxNoProgress) ∧
-    (run P dir d0 pr stop oot x0 y Sig errz0 gV gS).stats.status ≠ .Exception := by
-  have h := final_status_is_chain P dir d0 pr stop oot x0 y Sig errz0 gV gS sh hfuel hh
+    (run P dir d0 pr stop oot x0 y Sig errz0 gV gS iS).stats.status ≠ .Exception := by
+  have h := final_status_is_chain P dir d0 pr stop oot x0 y Sig errz0 gV gS iS sh hfuel hh
   rw [h.1, h.2.1, h.2.2.1]
   exact ⟨maxIter_only_if _ _ _ _ _ _ _ _, notFinite_only_if _ _ _ _ _ _ _ _,
     interrupted_only_if _ _ _ _ _ _ _ _, maxTime_only_if _ _ _ _ _ _ _ _,
@@ -184,26 +184,26 @@ theorem crit_yhat_irrelevant (c : PANOCStopCrit) (hc : c ≠ .Ipopt)
     computed; only the Ipopt criterion reads `ŷ`). The last callback reports exactly the head's
     iterate, that `ε`, the exit status and the returned iteration count. -/
 theorem eps_from_final_iterate (P : Problem α) (dir : Direction D α) (d0 : D) (pr : Params α)
-    (stop : Nat → Bool) (oot : Bool) (x0 y Sig errz0 gV : Vec α) (gS : α) (sh : St α D)
-    (hfuel : (run P dir d0 pr stop oot x0 y Sig errz0 gV gS).fuelOut = false)
-    (hh : finalHead P dir d0 pr stop oot x0 gV gS = some sh) :
-    ∃ c cb, (run P dir d0 pr stop oot x0 y Sig errz0 gV gS).final = some c ∧
-      (run P dir d0 pr stop oot x0 y Sig errz0 gV gS).stats.eps =
+    (stop : Nat → Bool) (oot : Bool) (x0 y Sig errz0 gV : Vec α) (gS iS : α) (sh : St α D)
+    (hfuel : (run P dir d0 pr stop oot x0 y Sig errz0 gV gS iS).fuelOut = false)
+    (hh : finalHead P dir d0 pr stop oot x0 gV gS iS = some sh) :
+    ∃ c cb, (run P dir d0 pr stop oot x0 y Sig errz0 gV gS iS).final = some c ∧
+      (run P dir d0 pr stop oot x0 y Sig errz0 gV gS iS).stats.eps =
         calcErrorStopCrit pr.stopCrit (fun g x gr => ((P.prox g x gr).2.1, (P.prox g x gr).2.2))
           c.p c.gamma c.x c.xhat sh.curr.yhat c.gradPsi c.gradPsiHat ∧
       ((pr.stopCrit ≠ .Ipopt ∨
-          ((run P dir d0 pr stop oot x0 y Sig errz0 gV gS).wrote && pr.eagerGradientEval) = false) →
-        (run P dir d0 pr stop oot x0 y Sig errz0 gV gS).stats.eps =
+          ((run P dir d0 pr stop oot x0 y Sig errz0 gV gS iS).wrote && pr.eagerGradientEval) = false) →
+        (run P dir d0 pr stop oot x0 y Sig errz0 gV gS iS).stats.eps =
           calcErrorStopCrit pr.stopCrit (fun g x gr => ((P.prox g x gr).2.1, (P.prox g x gr).2.2))
             c.p c.gamma c.x c.xhat c.yhat c.gradPsi c.gradPsiHat) ∧
-      ((run P dir d0 pr stop oot x0 y Sig errz0 gV gS).wrote = true →
-        (run P dir d0 pr stop oot x0 y Sig errz0 gV gS).x = c.xhat ∧
-        (run P dir d0 pr stop oot x0 y Sig errz0 gV gS).y = c.yhat) ∧
-      (run P dir d0 pr stop oot x0 y Sig errz0 gV gS).callbacks.getLast? = some cb ∧
-      cb.it = sh.curr ∧ cb.eps = (run P dir d0 pr stop oot x0 y Sig errz0 gV gS).stats.eps ∧
-      cb.status = (run P dir d0 pr stop oot x0 y Sig errz0 gV gS).stats.status ∧
-      cb.k = (run P dir d0 pr stop oot x0 y Sig errz0 gV gS).stats.iterations := by
-  have h := run_eq_exit P dir d0 pr stop oot x0 y Sig errz0 gV gS sh hfuel hh
+      ((run P dir d0 pr stop oot x0 y Sig errz0 gV gS iS).wrote = true →
+        (run P dir d0 pr stop oot x0 y Sig errz0 gV gS iS).x = c.xhat ∧
+        (run P dir d0 pr stop oot x0 y Sig errz0 gV gS iS).y = c.yhat) ∧
+      (run P dir d0 pr stop oot x0 y Sig errz0 gV gS iS).callbacks.getLast? = some cb ∧
+      cb.it = sh.curr ∧ cb.eps = (run P dir d0 pr stop oot x0 y Sig errz0 gV gS iS).stats.eps ∧
+      cb.status = (run P dir d0 pr stop oot x0 y Sig errz0 gV gS iS).stats.status ∧
+      cb.k = (run P dir d0 pr stop oot x0 y Sig errz0 gV gS iS).stats.iterations := by
+  have h := run_eq_exit P dir d0 pr stop oot x0 y Sig errz0 gV gS iS sh hfuel hh
   rw [h.2]
   have hf := exitBlock_fields P pr sh (epsOf P pr sh.curr)
     (statusOf pr sh.k (epsOf P pr sh.curr) sh.noProgress oot (stop sh.tick)) x0 y Sig errz0
@@ -278,8 +278,8 @@ theorem lastHead_np (P : Problem α) (dir : Direction D α) (pr : Params α) (st
 /-- The "iterate unchanged" flags of the completed iterations of a solve (`xₖ == xₖ₊₁`, the `x`
     reported by callback `k` against the next current `x`). -/
 def runFlags (P : Problem α) (dir : Direction D α) (d0 : D) (pr : Params α) (stop : Nat → Bool)
-    (oot : Bool) (x0 gV : Vec α) (gS : α) : List Bool :=
-  match initState P d0 pr stop x0 gV gS with
+    (oot : Bool) (x0 gV : Vec α) (gS iS : α) : List Bool :=
+  match initState P d0 pr stop x0 gV gS iS with
   | .inl _ => []
   | .inr s => stepFlags P dir pr stop oot (pr.maxIter + 2) s
 
@@ -288,21 +288,21 @@ def runFlags (P : Problem α) (dir : Direction D α) (d0 : D) (pr : Params α) (
     iteration count); hence by `no_progress_counts_consecutive` it never exceeds the number of
     *consecutive* most recent iterations without any change of the iterate. -/
 theorem no_progress_counter_is_npRun (P : Problem α) (dir : Direction D α) (d0 : D) (pr : Params α)
-    (stop : Nat → Bool) (oot : Bool) (x0 gV : Vec α) (gS : α) (sh : St α D)
-    (hh : finalHead P dir d0 pr stop oot x0 gV gS = some sh) :
-    sh.noProgress = npRun pr.maxNoProgress 0 0 (runFlags P dir d0 pr stop oot x0 gV gS) ∧
-    sh.k = (runFlags P dir d0 pr stop oot x0 gV gS).length ∧
+    (stop : Nat → Bool) (oot : Bool) (x0 gV : Vec α) (gS iS : α) (sh : St α D)
+    (hh : finalHead P dir d0 pr stop oot x0 gV gS iS = some sh) :
+    sh.noProgress = npRun pr.maxNoProgress 0 0 (runFlags P dir d0 pr stop oot x0 gV gS iS) ∧
+    sh.k = (runFlags P dir d0 pr stop oot x0 gV gS iS).length ∧
     sh.noProgress ≤
-      ((runFlags P dir d0 pr stop oot x0 gV gS).reverse.takeWhile (· = true)).length := by
+      ((runFlags P dir d0 pr stop oot x0 gV gS iS).reverse.takeWhile (· = true)).length := by
   unfold finalHead at hh
   unfold runFlags
-  cases hi : initState P d0 pr stop x0 gV gS with
+  cases hi : initState P d0 pr stop x0 gV gS iS with
   | inl t => rw [hi] at hh; exact absurd hh (by simp)
   | inr s =>
     rw [hi] at hh
     simp only []
     injection hh with hh
-    have hk := initState_k P d0 pr stop x0 gV gS s hi
+    have hk := initState_k P d0 pr stop x0 gV gS iS s hi
     have hl := lastHead_np P dir pr stop oot (pr.maxIter + 2) s
     have hf := headStep_fields P pr stop oot (lastHead P dir pr stop oot (pr.maxIter + 2) s)
     rw [hk.1, hk.2.1] at hl
@@ -315,14 +315,14 @@ theorem no_progress_counter_is_npRun (P : Problem α) (dir : Direction D α) (d0
 /-- **`NoProgress` only after more than `max_no_progress` consecutive iterations without any change
     of the iterate.** -/
 theorem noProgress_needs_consecutive (P : Problem α) (dir : Direction D α) (d0 : D) (pr : Params α)
-    (stop : Nat → Bool) (oot : Bool) (x0 y Sig errz0 gV : Vec α) (gS : α) (sh : St α D)
-    (hfuel : (run P dir d0 pr stop oot x0 y Sig errz0 gV gS).fuelOut = false)
-    (hh : finalHead P dir d0 pr stop oot x0 gV gS = some sh)
-    (hs : (run P dir d0 pr stop oot x0 y Sig errz0 gV gS).stats.status = .NoProgress) :
+    (stop : Nat → Bool) (oot : Bool) (x0 y Sig errz0 gV : Vec α) (gS iS : α) (sh : St α D)
+    (hfuel : (run P dir d0 pr stop oot x0 y Sig errz0 gV gS iS).fuelOut = false)
+    (hh : finalHead P dir d0 pr stop oot x0 gV gS iS = some sh)
+    (hs : (run P dir d0 pr stop oot x0 y Sig errz0 gV gS iS).stats.status = .NoProgress) :
     pr.maxNoProgress <
-      ((runFlags P dir d0 pr stop oot x0 gV gS).reverse.takeWhile (· = true)).length := by
-  have h1 := (status_meaning P dir d0 pr stop oot x0 y Sig errz0 gV gS sh hfuel hh).2.2.2.2.1 hs
-  have h2 := (no_progress_counter_is_npRun P dir d0 pr stop oot x0 gV gS sh hh).2.2
+      ((runFlags P dir d0 pr stop oot x0 gV gS iS).reverse.takeWhile (· = true)).length := by
+  have h1 := (status_meaning P dir d0 pr stop oot x0 y Sig errz0 gV gS iS sh hfuel hh).2.2.2.2.1 hs
+  have h2 := (no_progress_counter_is_npRun P dir d0 pr stop oot x0 gV gS iS sh hh).2.2
   omega
 
 /-! ### Non-vacuity: a concrete run over ℚ (`Proofs/PanocLoopExample.lean`) meets the hypotheses -/
@@ -331,17 +331,17 @@ section examples
 open Alpaqa.Panoc.Example
 
 /-- the run reaches the main loop, does not run out of fuel, converges after two iterations -/
-example : (finalHead Pq dirNoop () prq (stopAt none) false [1] [] 0).isSome = true ∧
+example : (finalHead Pq dirNoop () prq (stopAt none) false [1] [] 0 0).isSome = true ∧
     (rq none).fuelOut = false ∧ (rq none).stats.status = .Converged ∧
     (rq none).stats.iterations = 2 ∧ (rq none).stats.iterations ≤ prq.maxIter ∧
     (rq none).stats.eps ≤ effTol prq.tolerance := by decide +kernel
 
 /-- its "iterate unchanged" flags: both iterations moved -/
-example : runFlags Pq dirNoop () prq (stopAt none) false [1] [] 0 = [false, false] := by
+example : runFlags Pq dirNoop () prq (stopAt none) false [1] [] 0 0 = [false, false] := by
   decide +kernel
 
 /-- an interrupted run (flag visible from tick 7) also meets them -/
-example : (finalHead Pq dirNoop () prq (stopAt (some 7)) false [1] [] 0).isSome = true ∧
+example : (finalHead Pq dirNoop () prq (stopAt (some 7)) false [1] [] 0 0).isSome = true ∧
     (rq (some 7)).fuelOut = false ∧ (rq (some 7)).stats.status = .Interrupted := by decide +kernel
 
 end examples
